@@ -158,6 +158,8 @@ def render_block(stmts, em):
             em.code("%s: [fn(int) -> int...] = [%s]" % (s[1], ", ".join(s[2])))
         elif k == "isclosure":
             em.code("print %s.is_closure()" % s[1])
+        elif k == "repeat":
+            em.code("rp = 0\nfrom 0 to %d {\n\trp = %s(%d)\n}\nprint rp" % (s[2], s[1], s[3]))
         elif k == "mapcall":
             em.code("print tbl.map(%s)" % s[1])
         elif k == "filtcall":
@@ -396,6 +398,12 @@ class Model:
         elif k == "isclosure":
             f = fr.cell(s[1]).v
             self.out.append("true" if f.captures else "false")
+        elif k == "repeat":
+            f = fr.cell(s[1]).v
+            r = 0
+            for _ in range(s[2]):
+                r = self.call(f, [s[3]])
+            self.out.append(str(r))
         elif k == "mapcall":
             f = fr.cell(s[1]).v
             self.out.append(fmt_value([self.call(f, [x]) for x in list(fr.cell("tbl").v)], True))
@@ -497,6 +505,8 @@ def free_names(params, body):
                 bound.add(s[1])
                 continue
             elif k == "retfn":
+                used.add(s[1])
+            elif k == "repeat":
                 used.add(s[1])
             elif k == "mapcall":
                 used.update(["tbl", s[1]])
@@ -836,7 +846,7 @@ def generate(rng, max_ops=12):
         ints = g.of_type(top, "int")
         choices = [("printvar", 2)]
         if fns:
-            choices += [("call", 8), ("isclosure", 1), ("mklist", 1), ("mapcall", 2), ("filtcall", 2)]
+            choices += [("call", 8), ("isclosure", 1), ("mklist", 1), ("mapcall", 2), ("filtcall", 2), ("repeat", 1)]
         if ints:
             choices.append(("assign", 4))
         if factories:
@@ -898,6 +908,8 @@ def generate(rng, max_ops=12):
             top.own[n] = "fn1"
         elif k == "isclosure":
             prog.append(["isclosure", rng.choice(fns + ["idf"])])
+        elif k == "repeat":
+            prog.append(["repeat", rng.choice(fns), rng.choice([2, 3, 9, 17]), rng.range(0, 9)])
         elif k == "mapcall":
             prog.append(["mapcall", rng.choice(fns)])
         elif k == "filtcall":
